@@ -120,7 +120,7 @@ struct C18 : Scenario {
     Json generate(Rng& rng, const std::string& tier, std::uint64_t run) override {
         Json p = Json::object();
         p["scenario"] = run % 3 == 2 ? "S-RUN" : "S-ACT";
-        GenOpts o; o.max_steps = 6; o.max_actions = 4; o.max_udq = 1; o.restart_safe_conditions = false; o.nested_parens = true; o.date_conditions = true; o.allow_msw = false;
+        GenOpts o; o.max_steps = 6; o.max_actions = 4; o.max_udq = 1; o.restart_safe_conditions = false; o.nested_parens = true; o.date_conditions = true; o.frac_dates = true; o.allow_msw = false;
         if (run % 5 < 2) { o.cond_well_bias = 0.8; o.max_wells = 6; o.min_wells = 3; }     // conditions dominated by well-pattern comparisons: exercises the matching-well set algebra
         p["kind"] = run % 3 == 2 ? "run" : "act";
         p["model_seed"] = static_cast<long long>(rng.next() >> 8);
